@@ -180,9 +180,9 @@ def make(template, update_ids=True):
 
 def _inst(tier):
     out = [{"template": "plain"}, {"template": "repeat_mid"}, {"template": "volta"}, {"template": "repeat_start", "update_ids": False},
-           {"template": "dacapo_fine"}, {"template": "repeat_mid_tie"}]
+           {"template": "dacapo_fine"}]
     if tier != "quick":
-        out += [{"template": "two_repeats"}, {"template": "plain_tie"}, {"template": "repeat_mid", "update_ids": False}, {"template": "volta", "update_ids": False}]
+        out += [{"template": "two_repeats"}, {"template": "plain_tie"}, {"template": "repeat_mid_tie"}, {"template": "repeat_mid", "update_ids": False}, {"template": "volta", "update_ids": False}]
     return out
 
 
